@@ -437,6 +437,12 @@ var upReplies = []string{
 	"HTTP/1.1 200\r\n\r\n",
 	"HTTP/1.0 200\r\n\r\n",
 	"HTTP/1.1 200 OK\r\nVia: 1.1 a\r\nVia: 1.1 b\r\nX-Empty:\r\nX-Long: " + strings.Repeat("v", 300) + "\r\n\r\n", // a line longer than the 128-byte reader
+	// any 2xx establishes the tunnel, whatever framing its head declares (RFC 9110 9.3.6)
+	"HTTP/1.1 201 Created\r\nContent-Length: 7\r\n\r\n",
+	"HTTP/1.1 202 Accepted\r\nContent-Length: 5\r\nX-Upstream: scripted\r\n\r\n",
+	"HTTP/1.1 299 Tunnel\r\nContent-Length: 3\r\n\r\n",
+	"HTTP/1.1 202 Accepted\r\n\r\n",
+	"HTTP/1.1 206 Partial\r\nTransfer-Encoding: chunked\r\n\r\n",
 }
 
 // upFraming is how net/http's readTransfer frames the body of each reply above
@@ -444,6 +450,7 @@ var upReplies = []string{
 var upFraming = [][3]int{
 	{0, 0, 1}, {0, 0, 1}, {0, 0, 1}, {0, 0, 0}, {0, 0, 1}, {0, 7, 0}, {1, 0, 0}, {0, 7, 1},
 	{0, 0, 1}, {0, 0, 1}, {0, 0, 1}, {0, 0, 1},
+	{0, 7, 0}, {0, 5, 0}, {0, 3, 0}, {0, 0, 1}, {1, 0, 0},
 }
 
 func (sc *scenario) runClient(proxyAddr string, wg *sync.WaitGroup) {
